@@ -16,7 +16,8 @@ RULE = ("Full-space encodings JW/BK/JKMN through fermion_to_qubit_mapping, both 
         "enc(x+x^) vs the Fock-space matrix written from the definition, JW matrix equal to that matrix. scBK: generated operators "
         "that conserve N_alpha and N_beta parity, n in {4,6,8}, every n_electrons 1..n-1 and admissible spin: spectrum on the "
         "(N, N_alpha) parity sector, products, linearity, adjoints; parity-breaking operators must be refused. HCB: random "
-        "molecular-form Hamiltonians (real symmetric h, 8-fold symmetric ERIs), M=1..5, and real molecules: spectrum on the "
+        "spin-free Hermitian molecular-form Hamiltonians (real orbitals with 8-fold symmetric ERIs, and the complex-orbital family "
+        "whose ERIs only obey (pq|rs)=(rs|pq)=conj((qp|sr)), real and complex coefficients), M=1..5, and real molecules: spectrum on the "
         "seniority-zero determinants, linearity, Hermiticity. combinatorial: molecular-form and general number-/spin-conserving "
         "Hermitian <=2-body operators, M=2..4, every (n_alpha,n_beta) with sector dimension >=2 (tuple and int forms): block "
         "structure, sector spectrum, unused block = constant*I (3e-5). Non-trivial = operator has >=2 terms, acts on >=2 modes "
@@ -26,7 +27,8 @@ ASSUMPTIONS = ["numpy/scipy linear algebra; Fock-space ladder matrices and Pauli
                "openfermion FermionOperator/QubitOperator are used as plain term containers only",
                "scBK domain = operators whose every term conserves N_alpha parity and N_beta parity; terms with odd S_z change are "
                "refused by Tangelo's documented ValueError and counted as rejected_by_contract",
-               "HCB domain = Hamiltonians in the molecular-form term layout produced by Tangelo molecules, real orbitals",
+               "HCB domain = spin-free Hermitian two-body Hamiltonians in the molecular-form term layout produced by Tangelo molecules "
+               "(same spatial integrals for both spins); real orbitals are not assumed",
                "combinatorial: matrix read with qubit n-1 as most significant bit; sectors of dimension 1 (0 qubits) are outside the domain; "
                "tolerance 3e-5*scale because the code stores the matrix as complex64 by design",
                "spectra compared as sorted eigenvalues to 1e-8*max(1,|E|max)"]
@@ -216,12 +218,47 @@ G64 = st.integers(-64, 64).map(lambda k: k / 64.0)
 
 
 @st.composite
-def integrals(draw, M, n_factors=None):
-    ntri = M * (M + 1) // 2
+def eri_index(draw, M):
+    """Index pattern of a sparse two-body entry, biased to the pair-hopping / exchange / Coulomb positions."""
+    o = st.integers(0, M - 1)
+    i, j, k, l = draw(o), draw(o), draw(o), draw(o)
+    pat = draw(st.sampled_from(["ijij", "ijij", "ijji", "iijj", "iiij", "ijkl", "ijik"]))
+    return [{"i": i, "j": j, "k": k, "l": l}[ch] for ch in pat]
+
+
+@st.composite
+def integrals(draw, M, family=None):
+    """Spin-free Hermitian two-body Hamiltonian in molecular form (plain data for vlib.h_c03.integrals_from_case).
+    family "8": real orbitals (8-fold symmetric ERIs); "4r"/"4c": only the symmetries forced by Hermiticity and particle
+    exchange, (pq|rs) = (rs|pq) = conj((qp|sr)), real / genuinely complex coefficients."""
+    if family is None:
+        family = draw(st.sampled_from(["8", "4r", "4r", "4c", "4c"])) if M >= 2 else "8"
+    ntri, nstrict = M * (M + 1) // 2, M * (M - 1) // 2
     tri = st.lists(G64, min_size=ntri, max_size=ntri)
+    strict = st.lists(G64, min_size=nstrict, max_size=nstrict)
     nz = tri.filter(lambda v: any(x != 0 for x in v))
-    K = draw(st.integers(1, 3)) if n_factors is None else n_factors
-    return {"M": M, "const": draw(st.one_of(st.just(0.0), G64)), "h": draw(nz), "L": [draw(tri) for _ in range(K)]}
+    K = draw(st.integers(1, 3))
+    c = {"M": M, "const": draw(st.one_of(st.just(0.0), G64)), "h": draw(nz), "L": [draw(tri) for _ in range(K)]}
+    if family == "8":
+        return c
+    c["Ls"] = [draw(st.sampled_from([1.0, 1.0, -1.0])) for _ in range(K)]
+    g = G64.filter(lambda v: v != 0)
+    if family == "4r":
+        c["X"] = [[draw(eri_index(M)), draw(g), 0.0] for _ in range(draw(st.integers(1, 4)))]
+    else:
+        c["hi"] = draw(strict)
+        c["Li"] = [draw(strict) for _ in range(K)]
+        c["X"] = [[draw(eri_index(M)), draw(G64), draw(g)] for _ in range(draw(st.integers(0, 3)))]
+    return c
+
+
+def eri_family(c):
+    _, h, eri = H.integrals_from_case(c)
+    four, eight = H.eri_symmetry(eri)
+    assert four, "generator produced integrals without Hermitian/exchange symmetry"
+    if eight and not np.iscomplexobj(h):
+        return "eri:8-fold"
+    return "eri:4-fold-complex" if (np.iscomplexobj(eri) or np.iscomplexobj(h)) else "eri:4-fold-real"
 
 
 @st.composite
@@ -570,7 +607,7 @@ def hcb(ctx):
         t1 = ham_terms(case["H1"])
         Q1, ref = hcb_check(t1, M, "hcb")
         sc = case["scale"]
-        lab = {f"M={M}"}
+        lab = {f"M={M}", eri_family(case["H1"])}
         if case["H2"] is not None:
             t2 = ham_terms(case["H2"])
             Q2 = qubit_matrix(f2q(t2, "hcb", 2 * M), M, "hcb")
@@ -666,6 +703,7 @@ def combinatorial_part(ctx):
         lab = {f"M={M}", case["kind"], "n_electrons:" + case["form"]}
         if case["kind"] == "molecular":
             terms = ham_terms(case["H1"])
+            lab.add(eri_family(case["H1"]))
         else:
             tx = H.case_to_terms(case["x"])
             terms = H.lin_terms(tx, H.dagger_terms(tx))
